@@ -55,6 +55,10 @@ type CASpec struct {
 	NameCons    int    // 1: permitted dNSName subtree the leaf is outside of; 2: excluded subtree the leaf is inside
 	EKU         string // role "ca": an EKU extension with just this usage (leaf EKUs need not nest)
 	CritUnknown bool   // an unknown critical extension
+	// OldSelf: the CA also has a self-signed certificate of its own (same subject and key), e.g. a former
+	// root that has since been cross-certified. [..., old self-signed, cross-certificate, ...] is a valid order.
+	OldSelf        bool
+	OldSelfTrusted bool
 }
 
 type LeafSpec struct {
@@ -129,6 +133,7 @@ type node struct {
 	v1      bool
 	depth   int
 	certs   []*pki.Cert // variant 0 (and 1 when cross-signed)
+	self    *pki.Cert   // self-signed certificate of the same subject and key (meta.variant -1), or nil
 	parents []int       // node index of each variant's issuer (-1: self-signed)
 	trusted []bool
 }
@@ -416,8 +421,11 @@ func build(c *Case) *world {
 		idx := len(w.nodes)
 		n := &node{label: fmt.Sprintf("ca%d", j), key: k, subject: cn(fmt.Sprintf("C02 CA %d", j), s.UTF8), role: s.Role, v1: isV1, depth: w.nodes[p0].depth + 1}
 		mk := func(parent int, variant int) *pki.Cert {
-			pn := w.nodes[parent]
-			pc := pn.certs[0]
+			pn, pc := n, (*pki.Cert)(nil) // parent < 0: self-signed
+			if parent >= 0 {
+				pn = w.nodes[parent]
+				pc = pn.certs[0]
+			}
 			t := pki.Template{Serial: next(), Subject: n.subject, NotBefore: nb, NotAfter: na, Key: k}
 			var ekus []string
 			cm := &meta{pathLen: -1}
@@ -474,6 +482,12 @@ func build(c *Case) *world {
 			return cert
 		}
 		n.certs, n.parents, n.trusted = []*pki.Cert{mk(p0, 0)}, []int{p0}, []bool{s.Trusted && !(s.Role == "nonca" && s.V1)}
+		if s.OldSelf && s.Role != "nonca" {
+			n.self = mk(-1, -1)
+			if s.OldSelfTrusted && s.Role != "pre" {
+				w.trusted = append(w.trusted, n.self)
+			}
+		}
 		if s.Cross >= 0 {
 			p1 := elig[mod(s.Cross, len(elig))]
 			if p1 != p0 {
@@ -600,6 +614,9 @@ func (w *world) sibling(c *pki.Cert) *pki.Cert {
 		return nil
 	}
 	n := w.nodes[m.node]
+	if m.variant < 0 {
+		return n.certs[0]
+	}
 	if len(n.certs) < 2 {
 		return nil
 	}
@@ -720,6 +737,30 @@ func (w *world) perturb(p Perturb) string {
 		out[i] = elem{c: s, der: s.DER}
 		w.chain = out
 		return "sibling"
+	case "oldself":
+		// put the CA's own self-signed certificate in front of its (cross-)certificate: still a valid order
+		find := func(c *pki.Cert) *pki.Cert {
+			m := w.metas[c]
+			if m == nil || m.node < 0 || m.variant < 0 {
+				return nil
+			}
+			return w.nodes[m.node].self
+		}
+		i := mod(p.I, n)
+		sc := find(ch[i].c)
+		if sc == nil {
+			for k := range ch {
+				if sc = find(ch[k].c); sc != nil {
+					i = k
+					break
+				}
+			}
+		}
+		if sc == nil {
+			return "noop:oldself"
+		}
+		ins(i, elem{c: sc, der: sc.DER})
+		return "oldself"
 	case "twin":
 		// the same key under a different subject name (a re-named CA): position i, else the first that has one
 		find := func(c *pki.Cert) *pki.Cert {
